@@ -59,6 +59,7 @@ def generate(seed, batch):
             'clustered': rng.random() < 0.3, 'chain': rng.random() < 0.12, 'mass': rng.choice(['spd', 'spd', 'diag', 'identity']),
             'mseed': rng.getrandbits(40), 'w_min': 10 ** rng.uniform(-2, 3),
             'mass_mag': rng.choice([1.0, 1.0, 10 ** rng.uniform(-15, 3)]),
+            'mass_spread': rng.choice([0, 0, 0, 0, rng.uniform(2.0, 8.0), rng.uniform(8.0, 14.0)]),
         }
         scen['k'] = rng.choice([1, 2, 3, 5, 10, 25, rng.randint(1, 25)])
         if batch == 'FI':
@@ -101,7 +102,9 @@ def generate(seed, batch):
             'stack': rng.choice([[0, 90, 90, 0], [0, 90, -45, 45], [45, -45, 0, 90, 30], [0], [30, -30, 60]]),
             'plyt': 1.25e-4, 'm': rng.choice([2, 3, 4, 5, 6, 11, 12]), 'n': rng.choice([2, 3, 4, 5, 6, 11]), 'flags': flags,
             'mu': 10 ** rng.uniform(0, 4), 'offset': rng.choice([0.0, 0.0, 1e-4, -2e-4]),
-            'atype': rng.choice([4, 4, 3]), 'Nxx': rng.choice([0.0, -1.0, -20.0, 5.0]),
+            'atype': rng.choice([4, 4, 3, 3]), 'Nxx': rng.choice([0.0, 0.0, -1.0, -20.0, 5.0]),
+            # pre-stress states with transverse and shear components, also shear alone
+            'Nyy': rng.choice([0.0, 0.0, -5.0, 3.0]), 'Nxy': rng.choice([0.0, 0.0, 10.0, -25.0]),
         }
         scen['redefine_mu'] = rng.choice([None, None, 4.0, 0.25])
         if rng.random() < 0.15:
@@ -188,6 +191,10 @@ def build_panel(scen):
     p.mu = mo['mu']
     p.offset = mo['offset']
     p.Nxx = mo['Nxx']
+    if mo.get('Nyy'):
+        p.Nyy = mo['Nyy']
+    if mo.get('Nxy'):
+        p.Nxy = mo['Nxy']
     for f, v in mo['flags'].items():
         setattr(p, f, v)
     return p
@@ -292,6 +299,23 @@ def check_result(scen, Kd, Md, active, vals, vecs, k, sparse, sort, ref, log, re
         del refl[j]
     if sort:
         got = re
+        # F5 count: with sort on, the analysis only drops frequencies at or below its documented absolute cut-off of 1e-6
+        # rad/s; every reference frequency a decade above it (and determined by the data to better than 30 % at rounding level) must still
+        # be there - all of them on the dense path, the k lowest on the sparse path.  This holds however ill-conditioned
+        # the values are, so it is checked before the value comparison is allowed to give up.
+        nwant = len(w_ref) if not sparse else min(k, len(w_ref))
+        mi = ref.get('mi')
+
+        def determined(i):
+            # rounding-level (2e-15 n) normwise backward error moves this frequency by less than 30 %
+            x2 = max(float(w_ref[i]) ** 2, 1e-300)
+            return 2e-15 * n * (nK / x2 + nM) / max(float(mi[i]), 1e-300) < 0.3
+        n_exp = sum(1 for i in range(nwant) if w_ref[i] >= 1e-5 and determined(i)) if mi is not None and len(mi) == len(w_ref) else 0
+        if not scen.get('reduced_dof') and len(got) < n_exp:
+            raise Violation('F5-count' + tag, {'why': 'frequencies above the cut-off of 1e-6 rad/s are missing from the result',
+                                               'returned': int(len(got)), 'expected_at_least': int(n_exp),
+                                               'lowest_reference': [float(x) for x in w_ref[:4]],
+                                               'lowest_returned': [float(x) for x in got[:4]]})
         if any(ill(x) for x in list(got) + list(w_ref[:len(got)])):
             bump(res['probes'], 'F5_skipped_ill_conditioned')
             asc = bool(np.all(np.diff(got) >= -1e-9 * np.abs(got[1:]))) if len(got) > 1 else True
@@ -369,12 +393,14 @@ def execute(scen):
         n = Kd.shape[0]
         Ka = Kd[np.ix_(active, active)]
         Ma = Md[np.ix_(active, active)]
-        w2 = eigh(Ka, Ma, eigvals_only=True)
+        w2, V_ref = eigh(Ka, Ma)
         w_ref = np.sqrt(np.maximum(w2, 0.0))
+        # modal mass of each reference mode for a unit-length mode vector (sharpens the perturbation bound mode by mode)
+        mi_ref = np.einsum('ij,ij->j', V_ref, Ma.dot(V_ref)) / np.maximum(np.einsum('ij,ij->j', V_ref, V_ref), 1e-300)
         ekm = np.linalg.eigvalsh(Ka + Ma)
         ek = np.linalg.eigvalsh(Ka)
         # conditioning that limits the shift-invert resolution: of the shifted matrix K+M and of K itself
-        ref = {'w': w_ref, 'mmin': float(np.linalg.eigvalsh(Ma).min()),
+        ref = {'w': w_ref, 'mmin': float(np.linalg.eigvalsh(Ma).min()), 'mi': mi_ref,
                'condKM': float(max(ekm.max() / ekm.min(), ek.max() / max(ek.min(), 1e-300)))}
         K = csr_matrix(Kd)
         M = csr_matrix(Md)
